@@ -21,6 +21,17 @@ import subprocess
 
 import vlib
 
+# task kinds of harness/c19.cpp (index = outcome code in submit-spec / future-get events)
+KIND_LETTERS = 'vurcifs'
+KIND_NAMES = {'v': 'value', 'u': 'void', 'r': 'throws-std::runtime_error', 'c': 'throws-class-derived-from-std::exception',
+              'i': 'throws-int', 'f': 'throws-foreign-struct', 's': 'throws-std::string'}
+
+
+def outcome_str(code, payload):
+    """model outcome (lean/Driver/C19.lean parseOutcome) of harness outcome code + payload"""
+    return ['v.%d', 'v.%d', 's.0.%d', 's.1.%d', 'o.0.%d', 'o.1.%d', 'o.2.%d'][code] % payload
+
+
 LOCKED = {'push-full-waited', 'push-locked', 'pop-wait', 'pop-woken', 'pop-took', 'trypop-empty', 'trypop-took',
           'shutdown-locked'}
 STOP_BASE = 900000000
@@ -54,8 +65,15 @@ def gen_scenarios(rng, quick):
     rng.shuffle(sizes)
     for k in range(np_):
         N = sizes[k] if k < len(sizes) else 1 + rng.below(32)
+        # task mix: the kind of task id is ((id * stride + mix) % 7) — value / void / std::runtime_error / class derived
+        # from std::exception / int / foreign struct / std::string —, so every 7 consecutive tasks contain every kind and
+        # mix decides which kind comes first; small scenarios (1 or 2 tasks) keep the single-task corner
+        S = 1 + rng.below(4)
+        n = rng.choice([1, 2, 4, 7, 8, 12])
+        if k < len(sizes) and S * n < 7:
+            n = 7       # the first scenario of every pool size has the full mix
         sc.append('pool N=%d max=%d S=%d n=%d mode=%s mix=%d pl=%d ps=%d'
-                  % (N, rng.choice([0, 1, 2, 3, 5]), 1 + rng.below(4), rng.choice([1, 2, 4, 8, 12]),
+                  % (N, rng.choice([0, 1, 2, 3, 5]), S, n,
                      rng.choice(['get-first', 'destroy-first']), rng.below(1000), rng.choice([0, 1, 2, 2]),
                      1 + rng.below(1000000)))
     return sc
@@ -291,7 +309,7 @@ def complete(block):
         if tag == 'q-new':
             emit(i, t, 'q-new', arg)
         elif tag == 'submit-spec':
-            spec[payload // 1000000] = ('e.%d' if arg else 'v.%d') % (payload % 1000000)
+            spec[payload // 1000000] = outcome_str(arg, payload % 1000000)
         elif tag == 'push-enter':
             producer_of[payload] = t
             emit(i, t, 'push-enter', 0, elem_str(payload) if payload is not None else '0')
@@ -389,7 +407,7 @@ def complete(block):
         elif tag == 'task-run':
             emit(i, t, 'task-run', 0, str(payload))
         elif tag == 'future-get':
-            emit(i, t, 'future-get', 0, '%d.%s.%d' % (payload // 1000000, 'e' if arg else 'v', payload % 1000000))
+            emit(i, t, 'future-get', 0, '%d.%s' % (payload // 1000000, outcome_str(arg, payload % 1000000)))
         elif tag == 'dtor-start':
             dtor_tid = t
             emit(i, t, 'dtor-start')
@@ -477,7 +495,10 @@ def run(ctx):
     quick = ctx.tier == 'quick'
     ctx.rule = ('one case = one scenario line (queue: element type x producers 1..8 x consumers 1..8 x bound x elements x '
                 'shutdown mode x try_pop mix x perturbation level/seed; pool: workers 1..32 x queue bound x submitters x tasks x '
-                'get-before/after-destruction x value/exception/slow/fast mix x perturbation); every scenario runs real threads, '
+                'get-before/after-destruction x task mix (every task is one of: value, void, throws std::runtime_error, throws a class '
+                'derived from std::exception, throws int, throws a struct not derived from std::exception, throws std::string; slow/fast) '
+                'x perturbation); every scenario runs real threads, every future is read after the run (same value or the same exception '
+                'type and payload), a std::terminate() in the process is reported as monitor no-terminate, '
                 'its whole event trace is validated against the model; all scenarios are non-trivial (>= 2 threads on one monitor)')
     ctx.assumptions += [
         'the OS scheduler is not enumerated: the theorems cover all interleavings of the MODEL; the runs validate that the '
@@ -540,6 +561,19 @@ def run(ctx):
             ctx.count('consumers:%s' % kv.get('C'))
         else:
             ctx.count('pool-size:%s' % kv.get('N'))
+            kinds = b.obs.get('kinds', '')
+            S_, n_ = int(kv.get('S', '1')), int(kv.get('n', '1'))
+            Nw = int(kv.get('N', '1'))
+            nb = next(lbl for lim, lbl in ((1, '1'), (2, '2'), (4, '3-4'), (8, '5-8'), (16, '9-16'), (32, '17-32'), (10**9, '>32')) if Nw <= lim)
+            for idx, kl in enumerate(kinds):
+                i_ = idx % n_ if n_ else 0
+                pos = 'only' if n_ == 1 else 'first' if i_ == 0 else 'last' if i_ == n_ - 1 else 'middle'
+                name = KIND_NAMES.get(kl, kl)
+                ctx.count('task-kind:%s' % name)
+                ctx.count('task-kind-x-pool-size:%s:N=%d' % (name, Nw))
+                ctx.count('task-kind-x-pool-size-x-position:%s:N=%s:%s:%s' % (name, nb, pos, kv.get('mode')))
+            if kinds:
+                ctx.count('pool-scenario-kinds:%s' % ('all-7' if len(set(kinds)) == 7 else '%d-of-7' % len(set(kinds))))
         key = ' '.join(w for w in b.line.split() if not w.startswith('ps='))[:150]
         trace_txt = ['%d %s %d %d %s' % (e[0], e[1], e[2], e[3], '-' if e[4] is None else e[4]) for e in b.events]
         rep = {'kind': 'counterexample', 'scenario': b.line, 'perturbation_seed': kv.get('ps'), 'trace': trace_txt,
